@@ -7,6 +7,8 @@ Helper lemmas for property C05 (DeepCopy and Clone produce an equal, fully indep
 * `DeepCopy/Supported` `SupportedCopy`, `SupportedClone`, `topPre`, maps, reflexivity
 * `DeepCopy/Correct`   no panic + well-typed + structurally equal result (`corrOK`)
 * `DeepCopy/Clone`     `deriveClone`, `memAddrs`, `writeAt`
+* `DeepCopy/Shape`     the same as `Correct` without NaN-freeness, for the bit-level `Spec.shapeEq`
+                       (`shapeOK`, `clone_goodS`); `shapeEq_structEq`
 * `DeepCopy/Example`   evaluation tactic `dc_eval` and the concrete world of the examples
 -/
 import GoderiveModel.Lemmas.DeepCopy.Base
@@ -15,4 +17,5 @@ import GoderiveModel.Lemmas.DeepCopy.Fresh
 import GoderiveModel.Lemmas.DeepCopy.Supported
 import GoderiveModel.Lemmas.DeepCopy.Correct
 import GoderiveModel.Lemmas.DeepCopy.Clone
+import GoderiveModel.Lemmas.DeepCopy.Shape
 import GoderiveModel.Lemmas.DeepCopy.Example
